@@ -53,7 +53,7 @@ CHECKS = {
    text="cluster_spacepoints, Track::try_from and find_vertices return on generated point sets (10 families incl. exactly/nearly collinear with perturbation 1e-18..1e-2, repeated, equal radius, vertical, circles through the origin, dyadic grids), on direct fits of every family, and on hook-built track sets over all pitch decades with ties; returned tracks/vertices are finite with parameters in [-pi, pi].",
    note="Continuous domain: families and decades are counted so gaps are visible, but measure-zero NaN sets can be missed.", ref="DESIGN.md section 4 C14"),
  "C15": dict(engine="proptest", technique="invariant checking over generated multisets: partition (multiset equality by bits), minimum size, single-linkage connectivity (union-find), vertex partition",
-   text="Clusters + remainder are exactly the input multiset (by bits, duplicates counted), clusters have >= 13 points and are connected at 3 cm; vertex finding partitions the input tracks and a primary vertex has >= 2 tracks; over C14's point families with exact duplicates and hook-built / fitted track lists.",
+   text="Clusters + remainder are exactly the input multiset (by bits, duplicates counted), clusters have >= 13 points and are connected at 3 cm; vertex finding partitions the input tracks (tracks compared as values: bit for bit, the two zeros being one value) and a primary vertex has >= 2 tracks; over C14's point families with exact duplicates and hook-built / fitted track lists.",
    note="Track identity read through the helix_params hook.", ref="DESIGN.md section 4 C15"),
  "C16": dict(engine="proptest", technique="differential testing against a brute-force global minimiser (20001-point grid + golden section), cases generated per pitch decade, in Kepler (e, M) coordinates, and from fitted tracks / vertex tracks of generated point sets and track sets",
    text="The reported closest-approach parameter is in [-pi, pi], never NaN and, if interior, no other parameter is closer by more than 1e-9 m: direct calls over all pitch decades and over eccentricity/mean-anomaly coordinates dense around e ~ 1, points exactly on the helix axis, helices written with a negative radius; t_inner/t_outer of fitted tracks against the cluster's innermost/outermost point (hook-free on clustered point sets of every family; through the Cluster hook on connected groups with stray end hits and reversed order); per-track parameters of primary vertices of fitted tracks, of hook-built tracks crossing up to 30 cm off axis and of the C14 track sets.",
